@@ -24,8 +24,12 @@ var (
 	_ json.Unmarshaler = (*Duration)(nil)
 )
 
-func (d *Duration) MarshalJSON() ([]byte, error) {
-	return json.Marshal(time.Duration(*d).String())
+// MarshalJSON has a value receiver so that a Duration is written as a duration
+// string no matter whether the enclosing value is addressable. With a pointer
+// receiver json.Marshal(cfg) of a struct *value* wrote the raw nanoseconds, which
+// UnmarshalJSON then read back as milliseconds (10^6 times too large).
+func (d Duration) MarshalJSON() ([]byte, error) {
+	return json.Marshal(time.Duration(d).String())
 }
 func (d *Duration) UnmarshalJSON(data []byte) error {
 	var a any
